@@ -225,8 +225,8 @@ func Run(ctx context.Context, stmt ast.Stmt, setup Setup) (obs Obs, id int64) {
 		return c
 	})
 	e.Define("pe", func(cb func(int64)) { cb(1); cb(2) }) // a callback type without results
-	e.Define("harr", [3]int64{1, 2, 3}) // an unaddressable Go array: slicing it panics inside reflect
-	e.Define("hnm", map[string]int64(nil)) // nil containers of concrete Go types: an empty map and an empty list to a script
+	e.Define("harr", [3]int64{1, 2, 3})                   // an unaddressable Go array: slicing it panics inside reflect
+	e.Define("hnm", map[string]int64(nil))                // nil containers of concrete Go types: an empty map and an empty list to a script
 	e.Define("hnl", []int64(nil))
 	if setup != nil {
 		setup(e)
@@ -280,8 +280,12 @@ func runRecover(ctx context.Context, e *env.Env, stmt ast.Stmt) (res interface{}
 			err = &panicErr{r}
 		}
 	}()
-	return vm.RunContext(ctx, e, nil, stmt)
+	return vm.RunContext(ctx, e, sharedOptions, stmt)
 }
+
+// every run of the process is handed the SAME non-nil options value (all defaults, i.e. what nil means): options are configuration, not a place
+// where runs meet
+var sharedOptions = &vm.Options{}
 
 // SameObs compares two observations of the same program (run k versus run 1).
 func SameObs(a, b Obs, unordered bool) bool {
